@@ -6,8 +6,8 @@
      WeightModel.calc_weights (which equation's measurement every element was computed from);
    * the element each consumer multiplies an equation with, observed by replacing the weights
      with index markers, against WeightModel.simple_index / auto_index;
-   * degrees of freedom: the model's dof against p-values of the library on residual-free data
-     is not observable; dof is tied through the rejection statistics (thorough tier, support);
+   * degrees of freedom: recovered from the tapped exp(-chisq/2) of chisq_pvalue and the returned
+     p-value on noisy data, against the extracted WeightModel.dof;
    * which form of save_v_matrices the tree has (sanitizer run of the directed scenario).
 3. API-level scenarios (independent physical oracle, lib/selfcal_gen.py):
    (a) exact data, over-determined, all standards known: with set_m_error the calibration equals
@@ -324,6 +324,73 @@ def part_weight_tie(ctx, rec, wb, drv):
     return ok_w and ok_i
 
 
+
+# ------------------------------------------------------------------------------------------ dof tie
+def part_dof_tie(ctx, rec, wb, drv):
+    """degrees of freedom used by _vnacal_new_solve_calc_pvalue (recovered from the tapped
+    exp(-chisq/2) and the returned p-value) vs WeightModel.dof"""
+    cases = [(typ, 2) for typ in G.TYPES] + [("UE14", 3), ("TE10", 3), ("T8", 1)]
+    ok, detail = True, ""
+    bad = None
+    for (typ, n) in cases:
+        rng = random.Random(ctx.rng.getrandbits(48))
+        snf, strk = 1e-3, 1e-2
+        sc = G.build_general(rng, "dof_%s_%d" % (typ, n), typ, n, 1, 0, 0, excess=rng.choice([2, 5]),
+                             noise=(snf, strk, random.Random(rng.getrandbits(48))))
+        sc.cmd("merror 1 - %s %s" % (G.fnum(snf), G.fnum(strk)))
+        sc.cmd("pvalue 1e-300")
+        sc.cmd("itlimit 100")
+        sc.cmd("wb 0 0 0")
+        sc.solve()
+        rc, out, err = vplib.sh([wb], input=sc.text(), timeout=120, env=G.run_env(ctx))
+        if rc != 0:
+            sig = vplib.asan_signature(err) or {"kind": "fault", "error": "exit %d" % rc, "function": None}
+            rec.add(sig, "white-box run failed (%s): %s" % (sc.sid, err[-300:]), sc, {"stderr": err})
+            ok = False
+            continue
+        res, _ = G.parse_output(out)
+        s = res[sc.sid]["solve"][0] if res[sc.sid]["solve"] else None
+        exps = [float(l.split()[2]) for l in out.splitlines() if l.startswith("wb exp ")]
+        _, weights, eqm, _ = G.parse_wb(out)
+        if s is None or not exps or not eqm or s["pvalues"][0] < 0:
+            continue
+        p, x = s["pvalues"][0], -exps[-1]
+        # invert p = exp(-x) sum_{i<k} x^i / i!
+        term, acc, got = 1.0, 0.0, None
+        for k in range(1, 400):
+            acc += term
+            q = math.exp(-x) * acc
+            if abs(q - p) <= 1e-9 * max(p, 1e-12):
+                got = 2 * k
+                break
+            term *= x / k
+        lens = [len(eqm[0][i]) for i in sorted(eqm[0])]
+        unk = int(s["xlen"]) // int(s["sys"])
+        leak = []
+        if typ in ("TE10", "UE10", "UE14", "E12"):
+            leak = [sc.meta["nrefl"]] * (n * (n - 1))
+        q = model_query(drv, ["dof %d %d %s %d %s" % (unk, len(lens), " ".join(map(str, lens)), len(leak),
+                                                       " ".join(map(str, leak)))])
+        ctx.count(("dof_tie", typ, n))
+        if q is None or len(q) != 1:
+            ok = False
+            detail = detail or "model driver failed"
+            continue
+        want = int(q[0][0])
+        ctx.traces_validated += 1
+        ctx.sample({"scenario": sc.sid, "equations": lens, "unknowns": unk, "leak_samples": leak[:2],
+                    "df_library": got, "df_model": want, "pvalue": p})
+        if got != want:
+            ok = False
+            if not detail:
+                detail = "%s: library used %s degrees of freedom (p = %g, chisq = %g), model %d" % (sc.sid, got, p, 2 * x, want)
+                bad = sc
+    ctx.obligation("tie:degrees_of_freedom_vs_WeightModel.dof", ok, detail)
+    if not ok and bad is not None:
+        rec.add({"kind": "disagreement", "op": "_vnacal_new_solve_calc_pvalue", "class": "degrees of freedom"},
+                "degrees of freedom of the consistency test: " + detail, bad, None)
+    return ok
+
 # ------------------------------------------------------------------------------------------ directed
 def part_directed(ctx, rec, exe):
     rng = ctx.rng
@@ -460,6 +527,8 @@ def run(ctx):
     part_exact(ctx, rec, exe)
     ctx.log("weight tie")
     tie_ok = part_weight_tie(ctx, rec, wb, drv)
+    ctx.log("dof tie")
+    dof_ok = part_dof_tie(ctx, rec, wb, drv)
     ctx.log("directed")
     part_directed(ctx, rec, exe)
     if ctx.tier != "quick":
@@ -470,5 +539,7 @@ def run(ctx):
         log = getattr(ctx, "_last_coq_log", "")
         ctx.unproved("C18:coq", "Coq development of C18 does not build: " + log[-400:],
                      "exact-data scenarios, white-box weight ties and directed scenarios ran without a failing input")
+    if not dof_ok and not ctx.violations:
+        ctx.unproved("tie:dof", "degrees-of-freedom comparison failed", "dof tie cases of this run")
     if not tie_ok and not ctx.violations:
         ctx.unproved("tie:weights", "white-box weight comparison failed", "weight tie cases of this run")
